@@ -97,6 +97,17 @@ Theorem C06_norm_len : forall k shape strides sh st, norm k shape strides = (sh,
   (k = KNd -> length shape = length strides) -> (length sh <= length st)%nat.
 Proof. exact norm_len. Qed.
 
+(* get_array / set_array (array_offsets + get_unchecked): under the promise every offset read
+   or written is in bounds, and neither build mode overflows *)
+Theorem C06_array_offsets_in_bounds : forall m shape strides n base dim M,
+  Inv shape strides n -> n <= two64 -> length shape = length strides ->
+  match array_offsets m shape strides base dim M with
+  | OffList l => Forall (fun o => o < n) l /\ length l = M
+  | PanicOverflow => False
+  | _ => True
+  end.
+Proof. exact array_offsets_in_bounds. Qed.
+
 Theorem C06_weak_index_in_bounds : forall m strides idx n o,
   weak_index m strides idx n = OffSome o -> o < n.
 Proof. exact weak_index_in_bounds. Qed.
@@ -186,6 +197,7 @@ Example C06_nonvacuous :
   has_capacity Release KDyn [2; 0; 3] [15; 3; 1] 30 1%nat 5 = CapYes /\
   has_capacity Release KDyn [2; 0; 3] [15; 3; 1] 30 1%nat 6 = CapNo /\
   offset_k Release KDyn [2; 3] [3; 1] [1; 2] = Val (Some 5) /\
+  array_offsets Debug [2; 3] [3; 1] [0; 1] 0%nat 2%nat = OffList [1; 4] /\
   Inv [2; 3] [3; 1] 6 /\ ~ Inv [2; 3] [3; 1] 5.
 Proof.
   repeat split; try (vm_compute; reflexivity).
